@@ -9,3 +9,4 @@ import Props.C08
 import Props.C09
 import Props.C03
 import Props.C01
+import Props.C20
